@@ -250,8 +250,17 @@ impl<'a, K: HKey> Ctx<'a, K> {
             self.expect("checkpoint", "ok");
         } else if pick(w.reopen) {
             if !self.open_txs.is_empty() { return; }
+            let next: u64 = self.op("mem").split(' ').find_map(|f| f.strip_prefix("next=")).and_then(|x| x.parse().ok()).unwrap_or(0);
             self.expect("close", "ok");
             self.op("trace");
+            // C20: the layout rules, on the files alone (versions increasing, placed by (v-1)/N, every
+            // acknowledged version above the snapshot's still in a segment)
+            if next > 0 {
+                if let Some(bad) = crate::reader::layout_violations(&self.s.dir, self.s.n_wal(), next) {
+                    self.s.out.count("c20.layout-judged");
+                    if let Some(b) = bad.first() { self.fail(format!("C20: after a clean close: {b}")); }
+                }
+            }
             // C20: the files, read without the library, must describe the state the next open shows
             let described = crate::reader::described_state(&self.s.dir);
             if let Some(d) = &described {
